@@ -325,10 +325,10 @@ static void prop_partitions(Tape &t, Ctx &c) {
 
 static std::vector<Prop> props() {
     return {
-        Prop("algebra_double", prop_algebra<double>, 150, 1500, 100, 40, {1}, 1, 2),
-        Prop("algebra_complex", prop_algebra<cplx>, 60, 600, 100, 40, {1}, 1, 1),
-        Prop("partitions", prop_partitions, 60, 600, 100, 2, {1}, 1, 1),
-        Prop("algebra_blk2", prop_algebra_blk, 80, 600, 100, 60, {1}, 1, 1),
+        Prop("algebra_double", prop_algebra<double>, 600, 4000, 100, 40, {1}, 1, 2),
+        Prop("algebra_complex", prop_algebra<cplx>, 250, 1500, 100, 40, {1}, 1, 1),
+        Prop("partitions", prop_partitions, 200, 1000, 100, 2, {1}, 1, 1),
+        Prop("algebra_blk2", prop_algebra_blk, 300, 1500, 100, 60, {1}, 1, 1),
     };
 }
 
